@@ -347,9 +347,9 @@ struct PrtStream : Family {
 		if (many) npal = r.range(1, 16);
 		w.set("seed", hex64(r.next())).set("npal", npal).set("nimg", npal ? (many ? r.range(17, 60) : r.below(13)) : 0).set("nanim", many ? r.range(17, 30) : r.below(thorough ? 10 : 7)).set("canonical", r.chance(3, 4) ? 1 : 0);
 		p.world.push_back(w);
-		static const char* BAD[] = {"palidx", "scanline", "layers", "layers2"};
+		static const char* BAD[] = {"palidx", "scanline", "layers", "layers2", "layers256", "cancel", "palidxmid"};
 		size_t n = static_cast<size_t>(r.below(4));
-		for (size_t i = 0; i < n; ++i) { Line op = mkline("op", "refuse"); op.set("kind", BAD[r.below(4)]).set("pick", r.below(1000)); p.ops.push_back(op); }
+		for (size_t i = 0; i < n; ++i) { Line op = mkline("op", "refuse"); op.set("kind", BAD[r.below(7)]).set("pick", r.below(1000)); p.ops.push_back(op); }
 		return p;
 	}
 
@@ -407,6 +407,25 @@ struct PrtStream : Family {
 			bool applied = false;
 			if (kind == "palidx" && !bad.imageMetas.empty()) { bad.imageMetas[pick % bad.imageMetas.size()].paletteIndex = static_cast<uint16_t>(bad.palettes.size() + pick % 3); applied = true; }
 			else if (kind == "scanline" && !bad.imageMetas.empty()) { auto& im = bad.imageMetas[pick % bad.imageMetas.size()]; im.scanLineByteWidth += (pick % 2) ? 4 : 1; applied = true; }
+			else if (kind == "palidxmid" && bad.imageMetas.size() >= 2) {
+				// exactly one image out of range, at a seeded position among valid ones (not necessarily the largest or the last)
+				bad.imageMetas[pick % bad.imageMetas.size()].paletteIndex = static_cast<uint16_t>(bad.palettes.size());
+				applied = true;
+			}
+			else if (kind == "layers256") {
+				// a layer list that disagrees with the 7-bit count by a multiple of 256 (equal modulo a truncating comparison)
+				for (auto& a : bad.animations) { if (applied) break; for (auto& f : a.frames) { f.layers.resize(f.layers.size() + 256 * (1 + pick % 2)); applied = true; break; } }
+			}
+			else if (kind == "cancel") {
+				// two inconsistent frames whose differences cancel: the file-wide totals still agree
+				std::vector<Animation::Frame*> fs;
+				for (auto& a : bad.animations) for (auto& f : a.frames) fs.push_back(&f);
+				if (fs.size() >= 2) {
+					Animation::Frame* x = fs[pick % fs.size()];
+					Animation::Frame* y = fs[(pick / 7 + 1 + pick % fs.size()) % fs.size()];
+					if (x != y && y->layers.size() >= 1) { size_t d = 1 + pick % y->layers.size(); x->layers.resize(x->layers.size() + d); y->layers.resize(y->layers.size() - d); applied = true; }
+				}
+			}
 			else if (kind == "layers" || kind == "layers2") {
 				for (auto& a : bad.animations) { if (applied) break; for (auto& f : a.frames) { if (kind == "layers") { f.layers.resize(f.layers.size() + 1 + pick % 3); } else { if (f.layers.empty()) continue; f.layers.pop_back(); } applied = true; break; } }
 			}
